@@ -7,7 +7,9 @@ import CpModel.Gen.Fields
 
   What is modelled
   * `NameValuePairList._parse`: `parse_string_array('value', sep, item_class=NameValuePair, separator_spaces=' \t',
-    skip_empty=True)` — the scanner of `Text/Scan.lean`; every item is then `NameValuePair.parse_exact_size(item)`.
+    skip_empty=True, quote_aware=True)` — the quote-aware scanner of `Text/Scan.lean` (a separator inside an RFC 7230
+    quoted-string does not split); every item is then `NameValuePair.parse_exact_size(item)`; a list with an item in which
+    a double quote is anything but the delimiter of a quoted-string value is `InvalidValue` (`pairOk`).
   * `NameValuePair._parse`: the name is the text before the first `=` (`parse_string_until_separator_or_end`); if
     anything is left, `parse_separator('=')` consumes the whole RUN of `=` (`min_length=1`, no maximum), the value is the
     rest with leading SP/HTAB removed; a leading `"` is removed and then a trailing one (`quoted`); trailing SP/HTAB of the
@@ -128,10 +130,31 @@ def parsePairs (T : FieldTable) (ps : List Pair) : Except PErr Assignment :=
   | .error e => .error e
   | .ok (ss, rest) => .ok ⟨ss, rest⟩
 
-/-- `FieldValueMultiple._parse` up to the component value parsers -/
+/-- the value text of an item as `NameValuePair._parse` sees it before the quotes are removed: what follows the run of
+`=`, `lstrip(' \t')`; `none` when the item has no `=` -/
+def rawValue (item : Bytes) : Option Bytes :=
+  match splitFirstEq item with
+  | none => none
+  | some (_, v) => some (trimStart fieldWs (v.dropWhile (· = 0x3d)))
+
+/-- `_is_value_well_formed(value, quoted)` on the value text before the quotes are removed (`quoted` is "the text begins
+with a double quote") -/
+def valueOk : Option Bytes → Bool
+  | none => true
+  | some v => if v.head? = some 0x22 then quotedBody .inq (stripQuotes v) else !v.contains 0x22
+
+/-- the check of `NameValuePairList._parse` on one item: a double quote is the delimiter of a quoted-string value and
+nothing else — none in the name; an unquoted value (`quoted` is False) contains none; the content of a quoted value
+(`_is_value_well_formed(value, True)`) has a double quote only as the second character of a quoted-pair and does not end in
+a lone backslash (`quotedBody .inq`).  A quoted value that is not closed (the last item of the list) passes. -/
+def pairOk (item : Bytes) : Bool :=
+  !(nameValue item).1.contains 0x22 && valueOk (rawValue item)
+
+/-- `FieldValueMultiple._parse` up to the component value parsers: the quote-aware list scanner, the well-formedness
+check of every item (`InvalidValue`), the pairs, the component assignment -/
 def parseFields (T : FieldTable) (b : Bytes) : Except PErr Assignment :=
-  match parseStringArray b 0 [T.sep] fieldWs true none with
+  match parseStringArrayQ b 0 [T.sep] fieldWs true none with
   | .error e => .error e
-  | .ok (items, _) => parsePairs T (items.map nameValue)
+  | .ok (items, _) => if items.all pairOk then parsePairs T (items.map nameValue) else .error .invalidValue
 
 end Cp.Text
